@@ -7,7 +7,7 @@ ROOT = os.path.dirname(os.path.dirname(os.path.abspath(__file__)))
 
 A = "Kani 0.68 / CBMC 6.11 (cadical) bounded model checking of the compiled toodee code through #[kani::proof] harnesses in /verif/harness"
 B = "MIR->SMT symbolic execution of loop-free index kernels (cvc5 + z3, Int encoding with explicit mod 2^64), both arithmetic semantics, unbounded shapes"
-BS = "MIR->SMT state kernels: the shape invariant at every exit (internal panic, unwind out of caller code, return with a live drain) of the &mut TooDee methods, unbounded shapes (cvc5 + z3)"
+BS = "MIR->SMT state kernels: the shape invariant at every exit (internal panic, unwind out of caller code, return with a live drain) of the &mut TooDee methods, unbounded shapes, local-only loops abstracted by havoc (cvc5 + z3)"
 BI = "MIR->SMT one-step induction over the private cursor state (constructor = base case, next/next_back/nth/nth_back/size_hint = step) for unbounded shapes, depths and n (cvc5 + z3)"
 
 NOTE_A = ("Trusted: Kani/CBMC/cadical; std code is executed as compiled except the stubs named in the evidence; panic=abort, so 'panics' means 'never returns and only "
@@ -24,11 +24,11 @@ CHECKS = {
     "C07": ("remove/pop with a symbolic index and a symbolic (front, back) or scripted consumption of the drain, checked element by element against the ideal sequence; post-state by symbolic probe", "DESIGN.md §2 C07", A + "; " + BS),
     "C08": ("symbolic call sequences (next/next_back/nth/nth_back with unconstrained n, then count/last/for/rev/fold/rfold) against the ideal double-ended sequence, address-level", "DESIGN.md §2 C08-C10", A + "; " + BI),
     "C09": ("as C08 for col/col_mut incl. indexing, fully symbolic windows; Col/ColMut index kernels and column range kernels decided for all 64-bit inputs in checked and wrapping arithmetic", "DESIGN.md §2 C08-C10", A + "; " + B + "; " + BI),
-    "C10": ("as C08 for cells/cells_mut and the IntoIterator forms, from partially consumed front/back row states", "DESIGN.md §2 C08-C10", A),
+    "C10": ("as C08 for cells/cells_mut and the IntoIterator forms, from partially consumed front/back row states; FlattenExact's step functions additionally decided by induction over an abstract ideal inner iterator for unbounded shapes", "DESIGN.md §2 C08-C10", A + "; " + BI),
     "C11": ("crash point k is a symbolic variable: the k-th call into caller code (iterator next/len, Clone, Default, comparator, key fn) ends the path after observing the array through a stashed pointer; std's capacity-overflow panic routed through the same observer", "DESIGN.md §2 C11", A + "; " + BS),
     "C12": ("mem::forget of every returned drain/iterator/view after symbolic partial consumption, then shape invariant, live/distinct cells, continued use and drop", "DESIGN.md §2 C12", A + "; " + BS),
     "C13": ("swap family, row_pair_mut, fill, IndexMut on three implementors (TooDee overrides, TooDeeViewMut overrides, a harness-defined type using only the trait defaults); out-of-range arguments over the full usize range must panic", "DESIGN.md §2 C13", A + "; " + B),
-    "C14": ("bulk copies from slice / owned / strided view into owned arrays and view windows, copy_within split by vertical order and height with all other coordinates symbolic; mismatching sizes / non-fitting rectangles must panic", "DESIGN.md §2 C14", A),
+    "C14": ("bulk copies from slice / owned / strided view into owned arrays and view windows, copy_within split by vertical order and height with all other coordinates symbolic; mismatching sizes / non-fitting rectangles must panic; copy_within's fit check additionally decided for all 64-bit rectangles in checked and wrapping arithmetic", "DESIGN.md §2 C14", A + "; " + B),
     "C15": ("translate_with_wrap per shape and concrete row shift with symbolic column shift and contents (stub: naive rotate_left), flips on symbolic windows", "DESIGN.md §2 C15", A),
     "C16": ("each row-sort entry point with symbolic keys over {0,1,2}: key row ordered, columns intact, permutation, stability for the stable variants; unstable variants against an adversarial contract model of std's unstable sort", "DESIGN.md §2 C16/C17", A),
     "C17": ("as C16 for the column-sort entry points on non-square shapes", "DESIGN.md §2 C16/C17", A),
@@ -65,7 +65,7 @@ def build():
         },
         "engines": [
             {"name": "kani-cbmc", "path": "/verif/harness", "serves_properties": sorted(CHECKS), "kind_free_text": A},
-            {"name": "mirsmt", "path": "/verif/mirsmt", "serves_properties": ["C01", "C02", "C03", "C06", "C07", "C08", "C09", "C11", "C12", "C13", "C20"], "kind_free_text": B + "; " + BS + "; " + BI},
+            {"name": "mirsmt", "path": "/verif/mirsmt", "serves_properties": ["C01", "C02", "C03", "C06", "C07", "C08", "C09", "C10", "C11", "C12", "C13", "C14", "C20"], "kind_free_text": B + "; " + BS + "; " + BI},
         ],
         "checks": checks,
         "notes": "Exit codes: 0 held, 1 VIOLATION (replayed natively first), 2 inconclusive (timeout, unwinding bound, non-reproducing counterexample). Genuine defects found and repaired are listed in /verif/known_findings.json (fixed) and DESIGN.md.",
